@@ -9,6 +9,9 @@
  *   K <field> <b1> <b2>       one caption byte pair (hex, parity included) on field 1 / 2 = line 21 / 284  (silent)
  *   F <pgno> <subno> <level> <rows> <nav>   vbi_fetch_vt_page -> current page        -> {"page":{...}} | {"page":null}
  *   C <channel>               vbi_fetch_cc_page -> current page                      -> {"page":{...}}
+ *   f ... / c ...             like F / C but silent (followed by E)
+ *   E [<row> <col> <size> <attr>]...   edit cells of the current page as an application may do before rendering (vbi_page is a
+ *                             public structure): size = vbi_size, attr bit 0 conceal, bit 1 flash  -> {"page":{...}}
  *   X <module> <every_upto> <edge> <nrand> <seed> <decode charset|-> <gfx code> <opts|->
  *                             the four export targets on the current page            -> {"x":{...}}
  *   T <format> <table> <col> <row> <w> <h> <every_upto> <edge> <nrand> <seed>
@@ -315,6 +318,7 @@ static void cmd_print(char *line)
 
 /* ------------------------------------------------------------------ D: rendering */
 
+#define REF_PAD 256
 static struct { int valid, kind, fmt, reveal, flash; unsigned char *px; } ref[4];
 
 static void drop_refs(void) { int i; for (i = 0; i < 4; i++) { free(ref[i].px); ref[i].px = NULL; ref[i].valid = 0; } }
@@ -333,8 +337,10 @@ static unsigned char *full_page(int kind, int fmt, int bpp, int reveal, int flas
 		if (!ref[i].valid && slot < 0) slot = i;
 	}
 	if (slot < 0) { slot = 0; free(ref[0].px); }
-	ref[slot].px = calloc((size_t) pg.columns * cw * bpp * pg.rows * ch, 1);
-	draw(kind, fmt, ref[slot].px, pg.columns * cw * bpp, 0, 0, pg.columns, pg.rows, reveal, flash);
+	/* the full-page rendering: every pixel line is followed by REF_PAD bytes nobody looks at, so that the cells of the reference
+	   are what the library draws for these cells, whatever it may write right of the page's last column */
+	ref[slot].px = calloc((size_t) (pg.columns * cw * bpp + REF_PAD) * pg.rows * ch + REF_PAD, 1);
+	draw(kind, fmt, ref[slot].px, pg.columns * cw * bpp + REF_PAD, 0, 0, pg.columns, pg.rows, reveal, flash);
 	ref[slot].valid = 1; ref[slot].kind = kind; ref[slot].fmt = fmt; ref[slot].reveal = reveal; ref[slot].flash = flash;
 	return ref[slot].px;
 }
@@ -388,7 +394,8 @@ static void cmd_draw(char *line)
 			for (y = 0; y < ch; y++) {
 				size_t o = (size_t) (i * ch + y) * stride + (size_t) j * cw * bpp;
 				for (k = 0; k < (size_t) cw * bpp; k++) if (cv[o + k] != guard_byte(GUARD + o + k)) { untouched = 0; break; }
-				if (same && memcmp(cv + o, full + ((size_t) ((row + i) * ch + y) * pg.columns + (col + j)) * cw * bpp, (size_t) cw * bpp)) same = 0;
+				if (same && memcmp(cv + o, full + (size_t) ((row + i) * ch + y) * (pg.columns * cw * bpp + REF_PAD)
+						   + (size_t) (col + j) * cw * bpp, (size_t) cw * bpp)) same = 0;
 			}
 			putchar(untouched ? 'U' : same ? 'G' : 'X');
 		}
@@ -577,6 +584,7 @@ int main(void)
 			vbi_decode(vbi, &sl, 1, t); t += 1 / 29.97;
 			break;
 		}
+		case 'f':
 		case 'F': {
 			unsigned pgno, subno; int level, rows, nav, ok;
 			sscanf(line + 1, "%x %x %d %d %d", &pgno, &subno, &level, &rows, &nav);
@@ -585,16 +593,38 @@ int main(void)
 			memset(&pg, 0, sizeof pg);
 			ok = vbi_fetch_vt_page(vbi, &pg, pgno, subno, level == 1 ? VBI_WST_LEVEL_1 : level == 15 ? VBI_WST_LEVEL_1p5 :
 					       level == 25 ? VBI_WST_LEVEL_2p5 : VBI_WST_LEVEL_3p5, rows, nav);
-			if (ok) { have_page = 1; print_page(); } else printf("{\"page\":null}\n");
+			if (ok) have_page = 1;
+			if (line[0] == 'f') break;
+			if (ok) print_page(); else printf("{\"page\":null}\n");
 			break;
 		}
+		case 'c':
 		case 'C': {
 			int ch = atoi(line + 1), ok;
 			if (have_page) { vbi_unref_page(&pg); have_page = 0; }
 			drop_refs();
 			memset(&pg, 0, sizeof pg);
 			ok = vbi_fetch_cc_page(vbi, &pg, ch, 1);
-			if (ok) { have_page = 1; print_page(); } else printf("{\"page\":null}\n");
+			if (ok) have_page = 1;
+			if (line[0] == 'c') break;
+			if (ok) print_page(); else printf("{\"page\":null}\n");
+			break;
+		}
+		case 'E': {
+			char *tok, *save = NULL; int v[4], n = 0;
+			if (!have_page) { printf("{\"page\":null}\n"); break; }
+			drop_refs();
+			for (tok = strtok_r(line + 1, " \n", &save); tok; tok = strtok_r(NULL, " \n", &save)) {
+				v[n++] = atoi(tok);
+				if (n == 4) {
+					n = 0;
+					if (v[0] >= 0 && v[0] < pg.rows && v[1] >= 0 && v[1] < pg.columns) {
+						vbi_char *a = &pg.text[v[0] * pg.columns + v[1]];
+						a->size = v[2]; a->conceal = v[3] & 1; a->flash = (v[3] >> 1) & 1;
+					}
+				}
+			}
+			print_page();
 			break;
 		}
 		case 'X': cmd_export(line + 1); break;
